@@ -12,7 +12,7 @@ if c05 is None:
     _s.loader.exec_module(c05)
 c05.ensure_header()
 
-PROPERTIES = ['C05', 'C02']
+PROPERTIES = ['C05']   # not part of C02: the int element arithmetic of linalg::add / matrix_vector_product overflows for arbitrary element values (caller's domain)
 KERNEL_FLAGS = c05.FLAGS
 DRIVER_FLAGS = c05.FLAGS
 INFO = c05.parse_driver(os.path.join(os.path.dirname(os.path.abspath(__file__)), 'driver.cpp'))
